@@ -7,7 +7,7 @@ SPEC = {
     "allowed_axioms": [],
     "harness_pkg": "hx_hnsw",
     "harness_bin": "c32",
-    "n": {"quick": 200, "thorough": 3000},
+    "n": {"quick": 150, "thorough": 3000},
     "trusted_base": [
         "Coq 8.16.1 kernel + vm_compute (no native_compute); coqchk re-check in the thorough tier",
         "axioms: none (Print Assumptions: Closed under the global context for all listed theorems)",
